@@ -118,6 +118,9 @@ impl Interner {
     }
 }
 
+/// pair mode keeps the raw bytes every endpoint writes (for forwarding)
+pub static TAP_ON: std::sync::atomic::AtomicBool = std::sync::atomic::AtomicBool::new(false);
+
 pub enum Chunk {
     Data(i64, Vec<u8>),
     Eof(i64),
@@ -133,6 +136,8 @@ pub struct Conn {
     pub reasm: codec::Reassembler,
     pub tseq: u8,
     pub eof_seen: bool,
+    /// pair mode: raw chunks the endpoint wrote, kept for forwarding to the peer
+    pub tap: Option<Vec<(i64, Vec<u8>)>>,
 }
 
 impl Conn {
@@ -167,6 +172,7 @@ impl Conn {
                 reasm: codec::Reassembler::new(),
                 tseq: 0,
                 eof_seen: false,
+                tap: if TAP_ON.load(std::sync::atomic::Ordering::SeqCst) { Some(Vec::new()) } else { None },
             },
             theirs,
         )
@@ -221,6 +227,9 @@ pub fn decode_wire(conn: &mut Conn) -> WireOut {
                 conn.eof_seen = true;
             }
             Chunk::Data(t, bytes) => {
+                if let Some(tap) = conn.tap.as_mut() {
+                    tap.push((t, bytes.clone()));
+                }
                 conn.pending.extend_from_slice(&bytes);
                 let (frames, rest, err) = codec::parse_clean_stream(&conn.pending);
                 match err {
